@@ -103,3 +103,18 @@ package influx
 //@   ensures [exp] transfer[7][0] == 9 && transfer[7][1] == 0 && transfer[7][2] == 0 && transfer[7][3] == 8
 //@   ensures [exp_sign] transfer[8][0] == 9 && transfer[8][1] == 0 && transfer[8][2] == 0 && transfer[8][3] == 0
 //@   ensures [exp_number] transfer[9][0] == 9 && transfer[9][1] == 0 && transfer[9][2] == 0 && transfer[9][3] == 0
+
+// Binary row batches (WAL records, RPC): a batch is accepted only if exactly as many rows were decoded as its
+// header declares; otherwise no row is returned (a truncated batch must not surface rows left in the pooled slice).
+//@ prop C07 C01
+//@ func FastUnmarshalMultiRows
+//@   ghost pn int = 0
+//@   ghost cnt int = 0
+//@   call UnmarshalUint32
+//@     set pn = int(ret0)
+//@   call (*Row).FastUnmarshalBinary
+//@     set cnt = cnt + 1
+//@   ensures [all_declared_rows_decoded] result5 == nil ==> cnt == pn && len(result0) == pn
+//@   ensures [error_returns_no_rows] result5 != nil ==> len(result0) == 0
+//@   loop 1
+//@     invariant cnt == decodeN && pn == pointsN && len(rows) == pointsN
